@@ -53,6 +53,10 @@ def parseOp (op : String) : Option (Nat × List Tok) :=
       match n.toNat? with
       | some cap => (rest.mapM parseTok).map (fun ts => (cap, ts))
       | none => none
+    | ["size", n] =>          -- NewPipeWithSize(n) instead of NewPipeFromBufferPool: same model
+      match n.toNat? with
+      | some cap => (rest.mapM parseTok).map (fun ts => (cap, ts))
+      | none => none
     | _ => none
   | [] => none
 
@@ -139,6 +143,7 @@ structure Sp where
   berr : Option Nat := none
   released : Bool := false
   pending : Option Nat := none -- a Read(len n) is parked
+  fnPending : Bool := false    -- a CloseWithErrorAndCode fn is installed and has not run
   ghost : List UInt8 := []     -- lifecycle: what the previous owner of the buffer left unread (must be invisible)
 
 def Sp.buffered (s : Sp) : List UInt8 := if s.released then [] else s.acc.drop s.del
@@ -153,15 +158,21 @@ def parseRd (s : Sp) (n : Nat) (v : String) : Sp × Option String :=
   else if v.startsWith "err" then
     let body := (v.drop 3).toString
     let code := ((body.splitOn "+").headD "").toNat?
+    let ranFn := (body.splitOn "+fn").length > 1
     let s := { s with pending := none }
     match s.berr with
-    | some be => if code == some be then (s, none) else (s, some "break-delayed")
+    | some be =>
+      if code != some be then (s, some "break-delayed")
+      else if ranFn then (s, some "readfn") else (s, none)
     | none =>
       match s.cerr with
       | none => (s, some "spurious-error")
       | some ce =>
         if !s.buffered.isEmpty then (s, some "early-close")
-        else if code == some ce then (s, none) else (s, some "wrong-error")
+        else if code != some ce then (s, some "wrong-error")
+        -- the code installed by CloseWithErrorAndCode runs exactly once, with the first close-error return
+        else if ranFn != s.fnPending then (s, some "readfn")
+        else ({ s with fnPending := false }, none)
   else if v == "HANG" then (s, some "hang")
   else
     match bytesOfHex v with
@@ -196,15 +207,17 @@ def stepSpec0 (s : Sp) (t : Tok) (res : String) : Sp × Option String :=
           (s', some (if !s.ghost.isEmpty && n == min d.length (free - s.ghost.length) then "foreign-bytes" else "write-cap"))
         else (s', none)
     | _ => (s, some "bad-token")
-  | .c e _ =>
+  | .c e fn =>
     match s.cerr with
-    | none => ({ s with cerr := some e }, none)
+    | none => ({ s with cerr := some e, fnPending := fn }, none)
     | some old => (if old == 0 then { s with cerr := some e } else s, none)
   | .b e =>
     match s.berr with
-    | none => ({ s with berr := some e }, none)
+    | none => ({ s with berr := some e, fnPending := false }, none)
     | some old => (if old == 0 then { s with berr := some e } else s, none)
-  | .rel => ({ s with released := true }, none)
+  | .rel =>
+    -- Release must Put the pipe's own buffer back (the harness takes it out of the pool again and looks)
+    ({ s with released := true }, if res == "rel" then none else some "release-no-put")
   | .r n =>
     if res == "r=busy" then (s, none) else parseRd s n (res.drop 2).toString
   | .j =>
@@ -378,6 +391,182 @@ def runLifecycle (op impl : String) : Ans :=
     | _ => { model := "bad-op", verdict := "skip" }
   | _ => { model := "bad-op", verdict := "skip" }
 
+/-! ### several readers: `M;cap=N;k=K;tok;…` with `r:<i>:<n>` (reader i starts Read(len n)), `w:`, `c:`, `b:`,
+    `dis`, `len`.  A signalling op wakes the longest-parked reader; the harness lets it run and appends
+    `><i>:<result>`. -/
+
+inductive MTok | w (d : List UInt8) | c (e : Nat) | b (e : Nat) | dis | len | r (i n : Nat)
+
+def parseMTok (s : String) : Option MTok :=
+  match s.splitOn ":" with
+  | ["w", hx] => (bytesOfHex hx).map MTok.w
+  | ["c", e] => e.toNat?.map MTok.c
+  | ["b", e] => e.toNat?.map MTok.b
+  | ["dis"] => some .dis
+  | ["len"] => some .len
+  | ["r", i, n] => do
+    let a ← i.toNat?
+    let k ← n.toNat?
+    pure (.r a k)
+  | _ => none
+
+def rdBody (r : RdRes) : String := ((renderRd "" r).drop 1).toString
+
+def readyIdx (rds : List RPc) : Option Nat :=
+  rds.findIdx? fun pc => match pc with | .ready _ => true | _ => false
+
+def mauto (s : MSys) (base : String) : MSys × String :=
+  match readyIdx s.rds with
+  | none => (s, base)
+  | some i =>
+    match s.step (.readerStep i) with
+    | (s2, .read r) => (s2, base ++ ">" ++ toString i ++ ":" ++ rdBody r)
+    | (s2, _) => (s2, base ++ ">?")
+
+def runMTok (s : MSys) : MTok → MSys × String
+  | .w d =>
+    match s.step (.write d) with
+    | (s', .wrote n e) => mauto s' ("w=" ++ toString n ++ "," ++ renderWrErr e)
+    | (s', _) => (s', "w=?")
+  | .c e => mauto (s.step (.close e false)).1 "c"
+  | .b e => mauto (s.step (.brk e)).1 "b"
+  | .dis =>
+    match s.step .discard with
+    | (s', .discarded n) => (s', "dis=" ++ toString n)
+    | (s', _) => (s', "dis=?")
+  | .len => (s, match s.p.b with | some fb => "len=" ++ toString fb.len | none => "len=nil")
+  | .r i n =>
+    match s.rds[i]? with
+    | some .idle =>
+      let s1 := (s.step (.startRead i n)).1
+      match s1.step (.readerStep i) with
+      | (s2, .read r) => (s2, "r=" ++ rdBody r)
+      | (s2, _) => (s2, "r=?")
+    | some _ => (s, "r=busy")
+    | none => (s, "r=noreader")
+
+def runMToks : MSys → List MTok → List String → List String
+  | _, [], acc => acc.reverse
+  | s, t :: ts, acc => let (s', o) := runMTok s t; runMToks s' ts (o :: acc)
+
+/-- spec for several readers: only conservation / order / error rules are judged (a reader left parked
+    next to buffered data is the known consequence of `Signal`, see `C21_witness_two_readers`) -/
+def oracleM : Sp → List (Nat × Nat) → List MTok → List String → Option String
+  | _, _, [], [] => none
+  | s, pend, t :: ts, res :: rs =>
+    let parts := res.splitOn ">"
+    let a := parts.headD ""
+    let step1 : Sp × List (Nat × Nat) × Option String :=
+      match t with
+      | .w d => let (s', c) := stepSpec0 s (.w d) a; (s', pend, c)
+      | .c e => let (s', c) := stepSpec0 s (.c e false) a; (s', pend, c)
+      | .b e => let (s', c) := stepSpec0 s (.b e) a; (s', pend, c)
+      | .dis => let (s', c) := stepSpec0 s .dis a; (s', pend, c)
+      | .len => let (s', c) := stepSpec0 s .len a; (s', pend, c)
+      | .r i n =>
+        if a == "r=busy" then (s, pend, none)
+        else
+          let v := (a.drop 2).toString
+          let (s', c) := parseRd s n v
+          (s', if v == "blocked" then pend ++ [(i, n)] else pend, c)
+    match step1 with
+    | (_, _, some c) => some c
+    | (s1, pend1, none) =>
+      match parts with
+      | [_] => oracleM s1 pend1 ts rs
+      | [_, b] =>
+        match b.splitOn ":" with
+        | [is, v] =>
+          match is.toNat? with
+          | none => some "bad-token"
+          | some i =>
+            match pend1.find? (·.1 == i) with
+            | none => some "no-reader"
+            | some (_, n) =>
+              let (s2, c) := parseRd s1 n v
+              match c with
+              | some cls => some cls
+              | none =>
+                let pend2 := pend1.filter (·.1 != i)
+                oracleM s2 (if v == "blocked" then pend2 ++ [(i, n)] else pend2) ts rs
+        | _ => some "bad-token"
+      | _ => some "bad-token"
+  | _, _, _, _ => some "token-count"
+
+def runMulti (op impl : String) : Ans :=
+  match op.splitOn ";" with
+  | "M" :: capS :: kS :: rest =>
+    match capS.splitOn "=", kS.splitOn "=", rest.mapM parseMTok with
+    | ["cap", c], ["k", k], some ts =>
+      match c.toNat?, k.toNat? with
+      | some cap, some kk =>
+        let model := ";".intercalate (runMToks (MSys.init cap kk) ts [])
+        let verdict := if impl.startsWith "PANIC" then "FAIL:crash" else
+          match oracleM { cap := cap } [] ts (impl.splitOn ";") with
+          | none => "ok"
+          | some cls => "FAIL:" ++ cls
+        { model := model, verdict := verdict, tags := ["multi-reader", "nt"] }
+      | _, _ => { model := "bad-op", verdict := "skip" }
+    | _, _, _ => { model := "bad-op", verdict := "skip" }
+  | _ => { model := "bad-op", verdict := "skip" }
+
+/-! ### the exported FixedBuffer driven directly: `F;cap=N;w:<hex>;r:<n>;len;reset` -/
+
+inductive FTok | w (d : List UInt8) | r (n : Nat) | len | reset
+
+def parseFTok (s : String) : Option FTok :=
+  match s.splitOn ":" with
+  | ["w", hx] => (bytesOfHex hx).map FTok.w
+  | ["r", n] => n.toNat?.map FTok.r
+  | ["len"] => some .len
+  | ["reset"] => some .reset
+  | _ => none
+
+def runFTok (b : FB) : FTok → FB × String
+  | .w d =>
+    let (b', n, full) := b.write d
+    (b', "w=" ++ toString n ++ "," ++ (if full then "full" else "none"))
+  | .r n =>
+    if b.len = 0 then (b, "r=-,empty")
+    else let (b', out) := b.read n; (b', "r=" ++ hexField out ++ ",none")
+  | .len => (b, "len=" ++ toString b.len)
+  | .reset => (b.reset, "reset")
+
+def runFToks : FB → List FTok → List String → List String
+  | _, [], acc => acc.reverse
+  | b, t :: ts, acc => let (b', o) := runFTok b t; runFToks b' ts (o :: acc)
+
+/-- spec: a bounded FIFO of bytes (knows nothing of r/w/slide) -/
+def oracleF (cap : Nat) : List UInt8 → List FTok → List String → Option String
+  | _, [], [] => none
+  | q, .w d :: ts, r :: rs =>
+    let n := min d.length (cap - q.length)
+    if r == "w=" ++ toString n ++ "," ++ (if n < d.length then "full" else "none")
+    then oracleF cap (q ++ d.take n) ts rs else some "fb-write"
+  | q, .r n :: ts, r :: rs =>
+    if q.isEmpty then (if r == "r=-,empty" then oracleF cap q ts rs else some "fb-read-empty")
+    else if r == "r=" ++ hexField (q.take n) ++ ",none" then oracleF cap (q.drop n) ts rs else some "fb-read"
+  | q, .len :: ts, r :: rs => if r == "len=" ++ toString q.length then oracleF cap q ts rs else some "fb-len"
+  | _, .reset :: ts, r :: rs => if r == "reset" then oracleF cap [] ts rs else some "bad-token"
+  | _, _, _ => some "token-count"
+
+def runFixedBuffer (op impl : String) : Ans :=
+  match op.splitOn ";" with
+  | "F" :: capS :: rest =>
+    match capS.splitOn "=", rest.mapM parseFTok with
+    | ["cap", n], some ts =>
+      match n.toNat? with
+      | some cap =>
+        let model := ";".intercalate (runFToks { cap := cap, r := 0, data := [] } ts [])
+        let verdict := if impl.startsWith "PANIC" then "FAIL:crash" else
+          match oracleF cap [] ts (impl.splitOn ";") with
+          | none => "ok"
+          | some c => "FAIL:" ++ c
+        { model := model, verdict := verdict, tags := ["fixedbuffer"] ++ (if ts.length ≥ 3 then ["nt"] else []) }
+      | none => { model := "bad-op", verdict := "skip" }
+    | _, _ => { model := "bad-op", verdict := "skip" }
+  | _ => { model := "bad-op", verdict := "skip" }
+
 /-- Stress case `S;cap=<n>;data=<hex>;wc=<sizes>;rc=<sizes>;e=<code>`: a writer goroutine writes `data`
     in chunks (retrying the refused remainder until everything was taken), then closes with `e`; a
     reader goroutine reads until it gets an error.  By `C21_fifo`, `C21_close_after_data`,
@@ -399,6 +588,8 @@ def run (op impl : String) : Ans :=
     | some a => a
     | none => { model := "bad-op", verdict := "skip" }
   else if op.startsWith "L;" then runLifecycle op impl
+  else if op.startsWith "F;" then runFixedBuffer op impl
+  else if op.startsWith "M;" then runMulti op impl
   else
   match parseOp op with
   | none => { model := "bad-op", verdict := "skip" }
@@ -422,6 +613,7 @@ def run (op impl : String) : Ans :=
       (if countRel ts ≥ 1 then ["rel"] else []) ++
       (if countRel ts ≥ 2 then ["rel2"] else []) ++
       (if (impl.splitOn "dis=").length > 1 then ["discard"] else []) ++
+      (if op.startsWith "size=" then ["sized"] else []) ++
       (if ts.any isRd && ts.length ≥ 4 then ["nt"] else [])
     { model := model, verdict := verdict, tags := tags }
 
